@@ -88,3 +88,66 @@ package workceptor
 //@   site call Cancel AUTHZCANCEL: requires authorized(c.w, status.WorkType, signature, connIsUnix, signWork)
 //@   site call Release AUTHZRELEASE: requires authorized(c.w, status.WorkType, signature, connIsUnix, signWork)
 //@   site call GetResults AUTHZRESULTS: requires authorized(c.w, status.WorkType, signature, connIsUnix, signWork)
+
+// ---- C14: every access to the status file happens inside the file lock, in the order read -> callback -> rewrite
+
+//@ func (*StatusFileData).lockStatusFile
+//@   tags C14
+//@   trusted
+//@   modifies nothing
+//@   ensures PAIR: (result.1 != nil ==> result.0 == nil) && (result.1 == nil ==> result.0 != nil)
+
+//@ func (*StatusFileData).unlockStatusFile
+//@   tags C14
+//@   trusted
+//@   modifies nothing
+
+//@ func (*StatusFileData).saveToFile
+//@   tags C14
+//@   trusted
+//@   modifies nothing
+
+//@ func (*StatusFileData).loadFromFile
+//@   tags C14
+//@   trusted
+//@   modifies *sfd
+
+//@ func (*StatusFileData).Save
+//@   tags C14 C04
+//@   requires sfd != nil
+//@   ghostflag locked set call:lockStatusFile clear call:unlockStatusFile
+//@   site call lockStatusFile LOCKNAME: requires arg1 == filename && !flag("locked")
+//@   site call unlockStatusFile UNLOCKNAME: requires arg1 == filename && arg2 == lastcall("lockStatusFile") && flag("locked")
+//@   site call OpenFile UNDERLOCK: requires flag("locked") && lastcall("lockStatusFile") != nil && arg0 == filename
+//@   site call saveToFile UNDERLOCK: requires flag("locked") && lastcall("lockStatusFile") != nil && arg0 == sfd
+//@   ensures RELEASED: flag("locked") ==> lastcall("lockStatusFile") == nil
+
+//@ func (*StatusFileData).Load
+//@   tags C14 C04
+//@   requires sfd != nil
+//@   ghostflag locked set call:lockStatusFile clear call:unlockStatusFile
+//@   site call lockStatusFile LOCKNAME: requires arg1 == filename && !flag("locked")
+//@   site call unlockStatusFile UNLOCKNAME: requires arg1 == filename && arg2 == lastcall("lockStatusFile") && flag("locked")
+//@   site call Open UNDERLOCK: requires flag("locked") && lastcall("lockStatusFile") != nil && arg0 == filename
+//@   site call loadFromFile UNDERLOCK: requires flag("locked") && lastcall("lockStatusFile") != nil && arg0 == sfd
+//@   ensures RELEASED: flag("locked") ==> lastcall("lockStatusFile") == nil
+
+//@ func (*StatusFileData).UpdateFullStatus
+//@   tags C14 C13 C04
+//@   requires sfd != nil && statusFunc != nil
+//@   ghostflag locked set call:lockStatusFile clear call:unlockStatusFile
+//@   ghostflag loaded set call:loadFromFile
+//@   ghostflag applied set call:statusFunc
+//@   ghostflag truncated set call:Truncate
+//@   ghostflag saved set call:saveToFile
+//@   site call lockStatusFile LOCKNAME: requires arg1 == filename && !flag("locked")
+//@   site call unlockStatusFile UNLOCKNAME: requires arg1 == filename && arg2 == lastcall("lockStatusFile") && flag("locked")
+//@   site call OpenFile UNDERLOCK: requires flag("locked") && lastcall("lockStatusFile") != nil && arg0 == filename
+//@   site call Stat UNDERLOCK: requires flag("locked") && lastcall("lockStatusFile") != nil
+//@   site call Seek UNDERLOCK: requires flag("locked") && lastcall("lockStatusFile") != nil
+//@   site call loadFromFile READFIRST: requires flag("locked") && !flag("applied") && !flag("truncated") && arg0 == sfd
+//@   site call statusFunc LATESTRECORD: requires flag("locked") && lastcall("lockStatusFile") != nil && (flag("loaded") || size <= 0) && !flag("truncated") && arg0 == sfd
+//@   site call Truncate AFTERCALLBACK: requires flag("locked") && flag("applied") && arg1 == 0
+//@   site call saveToFile WRITEBACK: requires flag("locked") && flag("applied") && flag("truncated") && !flag("saved") && arg0 == sfd
+//@   ensures RELEASED: flag("locked") ==> lastcall("lockStatusFile") == nil
+//@   ensures COMPLETE: result == nil ==> flag("applied") && flag("saved")
